@@ -1386,6 +1386,8 @@ def gen_case(rng, kind):
     if kind == 'outdatum':
         f1, d1 = rand_datum(rng)
         f2, d2 = rand_datum(rng)
+        if rng.random() < 0.25:
+            f2, d2 = 'objkeydict', [rng.choice([0, 1, 2 ** 40]), bytes(rng.getrandbits(8) for _ in range(rng.choice([0, 4, 28]))).hex(), rng.randrange(100)]
         return {'k': 'outdatum', 'route': rng.choice([0, 1, 1, 2, 2]), 'form1': f1, 'd1': d1, 'form2': f2, 'd2': d2}
     if kind == 'key':
         return gen_key(rng)
